@@ -125,3 +125,6 @@ Lemma pe_tie_leaves M z a :
   src_pe_num M z = of_opt (period M (Num z)) /\ src_pe_name = of_opt (period M Var) /\
   src_pe_unaryop (pe_vis M) (NE a) = of_opt (period M (Not a)).
 Proof. repeat split. apply src_pe_num_eq. Qed.
+
+Lemma pe_pins : src_pin_base = true /\ src_pin_pe = true.
+Proof. split; reflexivity. Qed.
